@@ -744,6 +744,9 @@ Definition flag_holds (ft : flagtest) (v : pyval) : bool :=
 Definition flagtest_eqb (a b : flagtest) : bool :=
   match a, b with FTruthy, FTruthy | FIsTrue, FIsTrue | FEqTrue, FEqTrue => true | _, _ => false end.
 
+(* a private name (outside the public key space): it starts with an underscore *)
+Definition private_name (s : string) : bool := match s with String c _ => aeq c (ch "_") | EmptyString => false end.
+
 (* the model a pipeline key addresses (pipeline.<group>.<model>....) is executed when the pipeline runs *)
 Definition executes (ft : flagtest) (t : tree) (k : list string) : bool :=
   match getv t (model_flag_key k) with Ok v => flag_holds ft v | Raise _ => false end.
